@@ -34,5 +34,34 @@ Definition known_incremental_group (baseline models : schema) : bool :=
 Definition known_C01_incremental_group (c : m1_case) : bool := known_incremental_group (baseline_of c) (k_models c).
 Definition known_C06_incremental_group (c : m1_case) : bool := known_incremental_group (baseline_of c) (k_models c).
 
+(* C06, further class: the baseline holds the same constraint twice (declared twice in a model, or left
+   behind twice by an earlier shrink): the planner removes it once per copy, apply_action removes all
+   copies at the first RemoveConstraint, the second one targets nothing *)
+Fixpoint has_dup_constraint (l : list table_constraint) : bool :=
+  match l with [] => false | k :: r => (contains_constraint k r || has_dup_constraint r)%bool end.
+Definition known_C06_duplicate_constraint (c : m1_case) : bool :=
+  existsb (fun t => has_dup_constraint (t_constraints (normalized_or_self t))) (baseline_of c).
+
+(* C06, further class: the tables dropped by the plan reference each other in a cycle; no drop order keeps
+   every intermediate schema consistent unless the foreign keys are removed first, which the planner never does *)
+Definition known_C06_delete_cycle (c : m1_case) : bool :=
+  let b := baseline_of c in
+  let dropped := filter (fun t => negb (has_table (t_name t) (k_models c))) (map normalized_or_self b) in
+  match topo_sort dropped with TopoCycle => true | _ => false end.
+
+(* variant of reference-added-later that also covers self references *)
+Definition known_C06_ref_added_later_self (c : m1_case) : bool :=
+  existsb (fun mt =>
+    existsb (fun k =>
+      match k with
+      | CForeignKey _ _ rt rcols _ _ =>
+          match table_named rt (baseline_of c), table_named rt (k_models c) with
+          | Some rb, Some rm =>
+              existsb (fun rc => (negb (mem_str rc (map c_name (t_columns rb))) && mem_str rc (map c_name (t_columns rm)))%bool) rcols
+          | _, _ => false
+          end
+      | _ => false
+      end) (t_constraints (normalized_or_self mt))) (k_models c).
+
 Definition model_closes_gap (c : m1_case) : bool := closes_gap (baseline_of c) (k_models c).
 Definition model_stepwise_ok (c : m1_case) : bool := plan_stepwise_ok (baseline_of c) (k_models c).
